@@ -59,6 +59,7 @@ var (
 	stubReaders [nMethods]*sentReader
 	stubWriters [nMethods]*sentWriter
 	customErr   = errors.New("custom constructor error")
+	nilSeq      bool // listing stubs answer with a nil sequence (a value like any other: relayed as it is)
 )
 
 func init() {
@@ -180,6 +181,9 @@ func build(mask uint32, custom bool, rec *recorder) *ociregistry.Funcs {
 	if has(15) {
 		f.Repositories_ = func(ctx context.Context, startAfter string) ociregistry.Seq[string] {
 			rec.add(15, ctx, startAfter)
+			if nilSeq {
+				return nil
+			}
 			return func(yield func(string, error) bool) {
 				if yield("stub-repo-15", nil) {
 					yield("", stubErrs[15])
@@ -190,6 +194,9 @@ func build(mask uint32, custom bool, rec *recorder) *ociregistry.Funcs {
 	if has(16) {
 		f.Tags_ = func(ctx context.Context, repo, startAfter string) ociregistry.Seq[string] {
 			rec.add(16, ctx, repo, startAfter)
+			if nilSeq {
+				return nil
+			}
 			return func(yield func(string, error) bool) {
 				if yield("stub-tag-16", nil) {
 					yield("", stubErrs[16])
@@ -200,6 +207,9 @@ func build(mask uint32, custom bool, rec *recorder) *ociregistry.Funcs {
 	if has(17) {
 		f.Referrers_ = func(ctx context.Context, repo string, d ociregistry.Digest, at string) ociregistry.Seq[ociregistry.Descriptor] {
 			rec.add(17, ctx, repo, d, at)
+			if nilSeq {
+				return nil
+			}
 			return func(yield func(ociregistry.Descriptor, error) bool) {
 				if yield(stubDesc(17), nil) {
 					yield(ociregistry.Descriptor{}, stubErrs[17])
@@ -475,6 +485,10 @@ func main() {
 		default:
 			stubErrs[m] = fmt.Errorf("stub error of %s", methodNames[m])
 		}
+		nilSeq = m >= 15 && ((mask*97+uint32(m)*131+uint32(salt)*2654435761)>>11)%5 == 0
+		if nilSeq && set {
+			run.Count("delegated_nil_sequences", 1)
+		}
 		variant := int((mask*2654435761+uint32(m)*40503+uint32(salt)*97)>>9) % len(argVariants)
 		run.Count("args:"+argVariants[variant], 1)
 		desc := map[string]any{"method": methodNames[m], "mask": fmt.Sprintf("%018b", mask), "own_set": set, "custom_newerror": custom, "nil_table": nilTable, "argument_variant": argVariants[variant]}
@@ -502,7 +516,11 @@ func main() {
 			if len(rec.newErr) != 0 {
 				bad("delegate-newerror", "error constructor invoked although the field is set")
 			}
-			if !reflect.DeepEqual(res.vals, expectedSetVals(m)) {
+			if nilSeq {
+				if !reflect.DeepEqual(res.vals, []any{"NIL-SEQ"}) {
+					bad("delegate-results", fmt.Sprintf("the stub answered with a nil sequence; the caller received a non-nil one delivering %v", res.vals))
+				}
+			} else if !reflect.DeepEqual(res.vals, expectedSetVals(m)) {
 				bad("delegate-results", fmt.Sprintf("results %v differ from the stub's %v", res.vals, expectedSetVals(m)))
 			}
 			if !res.iter && res.err != stubErrs[m] {
